@@ -6,6 +6,24 @@ VERIF = os.path.dirname(os.path.dirname(os.path.abspath(__file__)))
 TRUST = "trusted base: the harness' own reference models (from-scratch interpreter Ref, shadow of declared dependencies, naive graph model, HashMap models), rustc/cargo, and Miri for the sanitizer leg; reach is bounded by the workload generator (see DESIGN.md section 12)"
 
 CHECKS = {
+ "C01": dict(cat="exploration", ref="5 (C01)", tech="runtime monitor: differential check of every Session::require result and of resource contents against a from-scratch reference interpreter, over generated programs x states x top-down histories",
+   text="Thousands (thorough: hundreds of thousands) of generated task programs with value-dependent structure are driven through histories of top-down sessions and external changes on one real Pie instance; each returned output and the resource contents after each session are compared with a from-scratch interpreter that shares no code with pie (thorough: also with a fresh Pie). Held on the executions listed in the evidence."),
+ "C02": dict(cat="exploration", ref="5 (C02)", tech="runtime monitors over the checker-side and task-side event log: at-most-once, justification of every execution by an inconsistent verdict, per-owner validation order = declaration order, idempotence probe session, subset-of-from-scratch for exact checkers",
+   text="Every execution in every top-down session must be justified by a verdict of the task's own instrumented checker; the per-owner order of checker calls is compared with the order the task created its dependencies; each session is repeated and must execute nothing; with exact checkers the executed set must be a subset of what the reference interpreter executes."),
+ "C03": dict(cat="exploration", ref="5 (C03), 6 (K1)", tech="runtime monitor: after every bottom-up build a probe session requires every known task (no execution, outputs = reference interpreter); K1 classifier for mixed histories",
+   text="After each bottom-up build that was told about every pending change, a probe requires all known tasks: nothing may execute and all outputs/resources must equal the from-scratch reference. Pure histories have no suppression; in mixed histories only executions explained by the recorded finding K1 are tolerated (and counted)."),
+ "C04": dict(cat="exploration", ref="5 (C04)", tech="runtime monitor over bottom-up builds: once, justified by a checker verdict, queue order vs transitive requires in the shadow, scheduled => executed; cross-checked with Tracker::schedule_task",
+   text="Each bottom-up build's event window is checked for multiplicity, justification (new task or inconsistent verdict earlier in the build), dependency order of scheduled tasks at every execution start, and completion of the queue, over queues of up to ~10 tasks including require-of-scheduled-task during execution and early cut-off."),
+ "C08": dict(cat="exploration", ref="5 (C08), 6 (K2)", tech="runtime monitor: guarded read-only store dump compared with a shadow of declared dependencies at every quiescent point; leftovers detected at check time",
+   text="After every session the hook's dump of the dependency store (edges in order, kinds, cloned checker and stamp objects, outputs) must equal what the task-side and checker-side log says the latest execution of each task declared."),
+ "C09": dict(cat="exploration", ref="5 (C09)", tech="runtime monitor: exact user-visible call pattern of Resource/ResourceChecker/OutputChecker calls per context operation, with reader/writer serial numbers and stamps matched back at check time",
+   text="For each read/write/written_to/require the log must show exactly the documented sequence on the very reader/writer object, and every later validation must hand back the creating checker value and stamp; verdict use (inconsistent => re-executed next, all consistent => reused) is asserted."),
+ "C17": dict(cat="exploration", ref="5 (C17)", tech="runtime monitor: stack discipline and adjacency of a full-fidelity tracker stream inside the common event log; CompositeTracker stream equality; EventTracker contents and every query helper vs an independent implementation",
+   text="All 23 tracker callbacks are recorded in the same total order as the task-side events and checked for nesting, for exact agreement with real executions/returns/stamps/verdicts, for identical delivery to both children of a CompositeTracker, and EventTracker's record, indices and ~30 helpers are compared with a reference for every event and key."),
+ "C18": dict(cat="fault_enumeration", ref="5 (C18)", tech="fault injection at ResourceChecker::check (armed per owner/resource, unique error serials) + runtime monitors: reported exactly once, owner re-executed/scheduled, no abort, still equal to the reference interpreter",
+   text="Failing checkers are armed and disarmed between builds at arbitrary dependencies; each injected error must appear exactly once in dependency_check_errors, must lead to re-execution/scheduling of its owner, must not abort the build, and the results must still equal the from-scratch reference."),
+ "C20": dict(cat="exploration", ref="5 (C20), 6 (K3)", tech="runtime monitor: any abort of a well-formed program is a violation (well-formed class); role-flip class pending",
+   text="Well-formed programs (no violation in any state) are driven through top-down, bottom-up and mixed histories; any abort is a violation."),
  "C10": dict(cat="exploration", ref="5 (C10/C11)", tech="runtime differential monitor: real pie_graph::DAG vs naive adjacency-list model after every operation (exhaustive small-scope + seeded random op sequences); Miri shard in thorough",
    text="Every operation sequence of the small-scope families and tens of thousands of random sequences are executed on the real DAG; after each operation the monitor checks rank bijection, rank order on every edge, the cycle verdict against plain DFS reachability and exact state rollback on rejection. Held-on-what-was-run, not a proof; the right level because the property is a safety property of finite operation sequences fully observable through the public API."),
  "C11": dict(cat="exploration", ref="5 (C10/C11)", tech="runtime differential monitor: all public DAG queries vs naive model for all nodes/pairs after every operation; Miri shard in thorough",
